@@ -405,9 +405,13 @@ def purity_native(spec, vcfg, f, member, width, tier, seed, detail, dtypes=(None
         dt = dtypes[trial % len(dtypes)]
         B = rng.randint(1, 6)
         rows = [member(rng) for _ in range(B)]
-        if dt is not None:
+        if dt is not None and dt != "strided":
             rows = [r.to(dt) for r in rows]
         x = torch.stack(rows)
+        if dt == "strided":
+            from .dtypes import strided_view
+
+            x = strided_view(x)  # the same values as a non-contiguous view
         x0 = x.clone()
         tag = {"dtype": str(x.dtype), "batch": x0.tolist() if x0.numel() <= 96 else f"shape {tuple(x0.shape)} seed {seed} trial {trial}"}
         try:
@@ -463,7 +467,7 @@ def purity_native(spec, vcfg, f, member, width, tier, seed, detail, dtypes=(None
     return out
 
 
-HARD_DTYPES = (None, torch.int32, torch.int64, torch.uint8, torch.float64, torch.bool)
+HARD_DTYPES = (None, torch.int32, torch.int64, torch.uint8, torch.float64, torch.bool, "strided")
 
 
 def _hard_dec_cfgs(tier):
@@ -598,7 +602,7 @@ def soft_decoders_bounded(spec, cfg, tier, seed):
         a = rng.choice([0.5, 2.0, 8.0])
         return a * ((1 - 2 * c) + sigma * torch.randn(n, generator=g))
 
-    return purity_native(spec, cfg, dec.forward, member, n, tier, seed, "LLRs a((1-2c) + sigma w), sigma in {0, .3, .8, 3}, a in {.5, 2, 8}; float32 and float64 in turn", dtypes=(None, torch.float64), tol=1e-5)
+    return purity_native(spec, cfg, dec.forward, member, n, tier, seed, "LLRs a((1-2c) + sigma w), sigma in {0, .3, .8, 3}, a in {.5, 2, 8}; float32 and float64 in turn", dtypes=(None, torch.float64, "strided"), tol=1e-5)
 
 
 def _mod_cfgs(tier):
@@ -619,7 +623,7 @@ def modulators_bounded(spec, cfg, tier, seed):
     mod, _ = mods.build(cfg)
     b = mods.bits_per_symbol(cfg)
     member = lambda rng: torch.tensor([float(rng.randint(0, 1)) for _ in range(3 * b)])
-    return purity_native(spec, cfg, mod.forward, member, 3 * b, tier, seed, "3 symbols per member; bits as float32/int64/uint8/bool/float64 in turn", dtypes=(None, torch.int64, torch.uint8, torch.bool, torch.float64), tol=1e-6)
+    return purity_native(spec, cfg, mod.forward, member, 3 * b, tier, seed, "3 symbols per member; bits as float32/int64/uint8/bool/float64 in turn", dtypes=(None, torch.int64, torch.uint8, torch.bool, torch.float64, "strided"), tol=1e-6)
 
 
 @obligation("C20.demodulators_bounded", function=FDEM, configs=lambda tier: codes.with_variants(_mod_cfgs(tier), ["hard", "soft"]), kind="custom", engine="standin")
@@ -648,7 +652,7 @@ def demodulators_bounded(spec, vcfg, tier, seed):
         return s + rng.choice([0.05, 0.3, 1.0]) * torch.complex(torch.randn(3, generator=g), torch.randn(3, generator=g))
 
     # soft outputs of tied members may differ in the last float bit between batch sizes: tolerance 1e-5; hard outputs are compared exactly through it as well (0/1 values)
-    return purity_native(spec, vcfg, f, member, 3, tier, seed, "3 symbols per member: noise-free, origin (tie), far outside, noisy; complex64 and complex128 in turn", dtypes=(None, torch.complex128), tol=1e-5)
+    return purity_native(spec, vcfg, f, member, 3, tier, seed, "3 symbols per member: noise-free, origin (tie), far outside, noisy; complex64 and complex128 in turn", dtypes=(None, torch.complex128, "strided"), tol=1e-5)
 
 
 # ---------------------------------------------------------------------------------------- memoryless modulators / demodulators (symbolic)
